@@ -301,6 +301,7 @@ def run_scenario(seed, shard, idx, tier):
 
 def shard_main(payload):
     seed, shard, lo, hi, tier = payload
+    driver.warm_up()
     agg = {"runs": 0, "steps": 0, "violations": [], "planned": {},
            "fired": {}, "probes": set(), "behaviours": set(),
            "mislabelled": 0, "mislabel_examples": [], "digests": [],
@@ -486,6 +487,7 @@ def run_session(seed, shard, idx):
 
 def session_shard(payload):
     seed, shard, lo, hi, _tier = payload
+    driver.warm_up()
     agg = {"runs": 0, "steps": 0, "violations": [], "planned": {},
            "fired": {}, "probes": set(), "behaviours": set(),
            "operator_restores": 0, "session_steps": 0, "sessions": 0}
